@@ -4,7 +4,7 @@ use crate::gen::{self, Flavor};
 use crate::ops::*;
 use crate::oracle::*;
 use crate::proto::show;
-use textwrap::core::{display_width as dw, Word};
+use textwrap::core::{display_width as dw, Fragment, Word};
 
 const ESC_ALPHA: &[&str] = &["\x1b", "[", "]", "\\", "\x07", "m", "@", "~", "0", ";", "a", " "];
 
@@ -476,12 +476,64 @@ fn run_ff(ctx: &mut Ctx, frs: &[F], lwv: &[f64], greedy: bool) {
     }
 }
 
+/// `WrapAlgorithm::wrap` (the public entry point above `wrap_first_fit` / `wrap_optimal_fit`) on
+/// hand-built words: penalties may sit on any word, including the last one
+pub fn walg_stream(ctx: &mut Ctx, greedy: bool) {
+    let vocab: &[&str] = &["a", "ab", "abc", "abcd", "Ｈ", "é", "\u{301}", "", "x-", "字字"];
+    for _ in 0..ctx.n(15000, 400_000) {
+        let n = ctx.rng.below(7);
+        let mut words: Vec<Word<'static>> = Vec::new();
+        for _ in 0..n {
+            let mut w = Word::from(*ctx.rng.pick(vocab));
+            w.whitespace = *ctx.rng.pick(&["", " ", " ", "  "]);
+            w.penalty = if ctx.rng.chance(1, 3) { "-" } else { "" };
+            words.push(w);
+        }
+        let total: usize = words.iter().map(|w| w.width() as usize + w.whitespace.len()).sum();
+        let lws: Vec<usize> = match ctx.rng.below(6) {
+            0 => vec![],
+            1 => vec![total],
+            2 => vec![total.saturating_sub(1)],
+            3 => vec![total + 1, 2],
+            4 => vec![ctx.rng.below(8)],
+            _ => vec![ctx.rng.below(8), ctx.rng.below(8)],
+        };
+        let alg = if cfg!(feature = "full") && !greedy && ctx.rng.chance(1, 2) { 'o' } else { 'f' };
+        let pen = crate::opt::DEFAULT_PEN;
+        let (op, real) = op_walg(alg, pen, &words, &lws);
+        let desc = format!("WrapAlgorithm::{}.wrap({:?}, {:?})", if alg == 'o' { "OptimalFit" } else { "FirstFit" }, words, lws);
+        ctx.case(op, desc.clone());
+        ctx.count(if alg == 'o' { "walg_optimal" } else { "walg_firstfit" });
+        match real {
+            None => ctx.fail("returns normally", format!("{} panicked", desc), None),
+            Some(lens) => {
+                if !is_partition(&lens, words.len()) {
+                    ctx.fail("ordered partition", format!("{} = line lengths {:?}", desc, lens), None);
+                } else {
+                    ctx.oracle_ok();
+                }
+                if greedy && alg == 'f' {
+                    let frs: Vec<F> = words.iter().map(|w| F(w.width(), w.whitespace.len() as f64, w.penalty.len() as f64)).collect();
+                    let lwf: Vec<f64> = lws.iter().map(|x| *x as f64).collect();
+                    if let Err(e) = greedy_ok(&frs, &lwf, &lens) {
+                        ctx.fail("greedy-maximal", format!("{} = {:?}: {}", desc, lens, e), None);
+                    } else {
+                        ctx.oracle_ok();
+                    }
+                }
+            }
+        }
+    }
+}
+
 pub fn c07(ctx: &mut Ctx) {
     ff_stream(ctx, true);
+    walg_stream(ctx, true);
 }
 
 pub fn c06(ctx: &mut Ctx) {
     ff_stream(ctx, false);
+    walg_stream(ctx, false);
     #[cfg(feature = "full")]
     {
         for _ in 0..ctx.n(30000, 1_000_000) {
